@@ -1,4 +1,5 @@
 import IofloModel.Lemmas.Sked
+import IofloModel.Lemmas.SkedLoop
 /-!
 # C03 — the scheduler stops when nothing runs and aborts every remaining tasker
 
@@ -16,12 +17,13 @@ variable {τ ω : Type} [TimeLike τ]
 
 /-- **`more`**: after a completed pass the flag that keeps the loop going is true exactly when some
 tasker that was in the deque at the start of the pass is STARTED or RUNNING at the end of the pass
-(for a tasker that was not due this is its cached status). `StatusFaithful E`: the status attribute is
-what the tasker last yielded and only its own run changes it. -/
-theorem C03_more_iff_live {E : Env τ ω} (hf : StatusFaithful E) (s s' : St τ ω) (more' : Bool)
-    (hnd : (ids s.ready).Nodup) (h : forLoop E s.ready.length s false = .ok s' more') :
+(for a tasker that was not due this is its cached status). `StatusFaithful E W`: on the worlds `W`
+the environment can be in, the status attribute is what the tasker last yielded and only its own run
+changes it (`C03_loopEnv_faithful` for the framers of part 2). -/
+theorem C03_more_iff_live {E : Env τ ω} {W : ω → Prop} (hf : StatusFaithful E W) (s s' : St τ ω) (more' : Bool)
+    (hW : W s.world) (hnd : (ids s.ready).Nodup) (h : forLoop E s.ready.length s false = .ok s' more') :
     more' = s.ready.any (fun e => (E.status s'.world e.id).live) := by
-  have := (forLoop_more hf s.ready [] s s' false more' (by simp) hnd h).1
+  have := (forLoop_more hf s.ready [] s s' false more' hW (by simp) hnd h).2.1
   simpa using this
 
 /-- **How a pass can end**, exhaustively: (1) it goes on to the next pass only if the deque is not empty
@@ -30,7 +32,8 @@ exactly when the deque is not empty and none is; (3) "no ready taskers" when the
 (4) otherwise an exception came out of a send to a due tasker, or was delivered at the boundary after
 a pass that would have gone on; `KeyboardInterrupt` ends the loop without error, anything else is
 re-raised. -/
-theorem C03_tick_ending {E : Env τ ω} (hf : StatusFaithful E) (s : St τ ω) (hnd : (ids s.ready).Nodup) :
+theorem C03_tick_ending {E : Env τ ω} {W : ω → Prop} (hf : StatusFaithful E W) (s : St τ ω) (hW : W s.world)
+    (hnd : (ids s.ready).Nodup) :
     (∀ s2, tick E s = .next s2 →
       s2.ready ≠ [] ∧ (∃ e ∈ s.ready, (E.status s2.world e.id).live = true) ∧ s2.tick = s.tick + 1) ∧
     (∀ s', tick E s = .done .noMore s' →
@@ -58,7 +61,7 @@ theorem C03_tick_ending {E : Env τ ω} (hf : StatusFaithful E) (s : St τ ω) (
       exact ⟨x, h.1.symm, Or.inl ⟨s1, rfl⟩⟩
   | ok s1 m =>
     have ht := tick_of_ok hfl
-    have hm := C03_more_iff_live hf s s1 m hnd hfl
+    have hm := C03_more_iff_live hf s s1 m hW hnd hfl
     have hspec := (forLoop_ok_proc hfl).spec [] (by simp)
     by_cases h1 : s1.ready.isEmpty = true
     · simp only [h1, if_true] at ht
@@ -123,17 +126,18 @@ theorem C03_tick_ending {E : Env τ ω} (hf : StatusFaithful E) (s : St τ ω) (
 /-- **The run ends after the first idle pass.** If pass `n` is reached and ends the run with "no
 running or started taskers", then no scheduled tasker is started or running after pass `n`, whereas
 after every earlier pass `m < n` some scheduled tasker was. -/
-theorem C03_stops_first_idle_tick {E : Env τ ω} (hf : StatusFaithful E) (s0 : St τ ω)
-    (hnd : (ids s0.ready).Nodup) (h0 : ∀ a ∈ s0.aborted, a.id ∉ ids s0.ready)
+theorem C03_stops_first_idle_tick {E : Env τ ω} {W : ω → Prop} (hf : StatusFaithful E W) (s0 : St τ ω)
+    (hW : W s0.world) (hnd : (ids s0.ready).Nodup) (h0 : ∀ a ∈ s0.aborted, a.id ∉ ids s0.ready)
     (n : Nat) (s s' : St τ ω) (hs : stateAt E n s0 = some s) (hend : tick E s = .done .noMore s') :
     (∀ e ∈ s.ready, (E.status s'.world e.id).live = false) ∧
     ∀ m, m < n → ∃ sm sm2, stateAt E m s0 = some sm ∧ tick E sm = .next sm2 ∧
       ∃ e ∈ sm.ready, (E.status sm2.world e.id).live = true := by
   have hinv := stateAt_inv (abortedOut_step E) (s0 := s0) ⟨hnd, h0⟩
-  refine ⟨((C03_tick_ending hf s (hinv n s hs).nodup).2.1 s' hend).2, ?_⟩
+  have hwinv := stateAt_inv (worldInv_step hf) (s0 := s0) hW
+  refine ⟨((C03_tick_ending hf s (hwinv n s hs) (hinv n s hs).nodup).2.1 s' hend).2, ?_⟩
   intro m hm
   obtain ⟨sm, sm2, hsm, htm⟩ := stateAt_prev n s hs m hm
-  exact ⟨sm, sm2, hsm, htm, ((C03_tick_ending hf sm (hinv m sm hsm).nodup).1 sm2 htm).2.1⟩
+  exact ⟨sm, sm2, hsm, htm, ((C03_tick_ending hf sm (hwinv m sm hsm) (hinv m sm hsm).nodup).1 sm2 htm).2.1⟩
 
 /-! ## however the loop ends: the abort sweep -/
 
@@ -266,3 +270,127 @@ theorem C03_loop_exception_is_from_send {E : Env τ ω} {s s' : St τ ω} {more 
   body_exc_is_send hr hb
 
 end Ioflo.Sked
+
+/-! # Part 2 — the framers that are aborted (`Model/SkedLoop.lean`) -/
+namespace Ioflo.SkedLoop
+open Ioflo.Sked
+
+variable {τ : Type} [TimeLike τ]
+
+/-- the framers of `Model/SkedLoop.lean` are a faithful environment (part 1 applies to them): the status
+the scheduler reads is the one last yielded, only a framer's own run changes it, a finished generator's
+framer shows ABORTED -/
+theorem C03_loopEnv_faithful : StatusFaithful (LoopEnv (τ := τ)) DeadAborted := loopEnv_faithful
+
+/-- **ABORT exits the entered frames bottom-up.** A framer that is started or running and is resumed
+with ABORT runs the exit context of its entered frames, innermost first (`actives.reverse`), and nothing
+else, before it becomes ABORTED; if no exit action crashes, the recorder marks it leaves are exactly the
+exit marks of these frames in that order, no frame is entered afterwards and the status is ABORTED. -/
+theorem C03_abort_exits_bottom_up (i : Nat) (w : World τ)
+    (hlive : (w.framers i).status = .running ∨ (w.framers i).status = .started) :
+    table i .abort w =
+      ((runFrames i .exit (w.framers i).actives.reverse w).andThen fun w => ⟨setActives i [] w, none⟩).andThen
+        (fun w => ⟨setStatus i .aborted (setDesire i .abort w), none⟩) ∧
+    ((table i .abort w).exc = none →
+      (table i .abort w).w.trace = w.trace ++ (w.framers i).actives.reverse.flatMap
+        (fun f => marksOf i f .exit (frameOf (w.framers i) f).exacts) ∧
+      ((table i .abort w).w.framers i).actives = [] ∧
+      ((table i .abort w).w.framers i).status = .aborted) := by
+  have heq : table i .abort w =
+      ((runFrames i .exit (w.framers i).actives.reverse w).andThen fun w => ⟨setActives i [] w, none⟩).andThen
+        (fun w => ⟨setStatus i .aborted (setDesire i .abort w), none⟩) := by
+    unfold table abortAny exitAll exitFrames
+    rcases hlive with h | h <;> simp [h]
+  refine ⟨heq, ?_⟩
+  intro hexc
+  rw [heq] at hexc ⊢
+  obtain ⟨h1, h2⟩ := andThen_none hexc
+  obtain ⟨h3, h4⟩ := andThen_none h1
+  rw [h2, h4]
+  simp only []
+  refine ⟨?_, ?_, ?_⟩
+  · have := runFrames_trace i .exit (w.framers i).actives.reverse w h3
+    simpa [setStatus, setDesire, setActives, World.modF, actsOf] using this
+  · simp [setStatus, setDesire, setActives, World.modF]
+  · simp [setStatus, World.modF]
+
+/-- STOP does the same (and ends STOPPED) -/
+theorem C03_stop_exits_bottom_up (i : Nat) (w : World τ)
+    (hlive : (w.framers i).status = .running ∨ (w.framers i).status = .started)
+    (hexc : (table i .stop w).exc = none) :
+    ((table i .stop w).w.framers i).actives = [] ∧ ((table i .stop w).w.framers i).status = .stopped := by
+  have heq : table i .stop w = stopLive i w := by
+    unfold table
+    rcases hlive with h | h <;> simp [h]
+  rw [heq] at hexc ⊢
+  refine ⟨stopLive_actives i w hexc, ?_⟩
+  unfold stopLive at hexc ⊢
+  obtain ⟨_, h2⟩ := andThen_none hexc
+  rw [h2]; exact status_setStatus i _ _
+
+/-- **No frame stays entered.** At the end of every run of every well-formed program — whatever crash
+plan, however the loop ended — every framer whose generator is still alive and which is not started or
+running has no entered frame; and every send of the abort sweep that came back, came back ABORTED. So
+each framer that the sweep reached without a crash has exited all its frames before `run` returns. -/
+theorem C03_entered_empty_at_return (p : Program τ) (hwf : p.wellFormed = true) (fuel : Nat) :
+    IdleEmpty (p.run fuel).2.world ∧
+    ∀ ev ∈ (p.run fuel).2.events, ev.phase = .final → ∀ x, ev.result = .yielded x → x = .aborted := by
+  have hinit : ∀ k, (p.world.framers k).actives = [] := by
+    intro k
+    unfold Program.wellFormed at hwf
+    simp only [Bool.and_eq_true, List.all_eq_true] at hwf
+    simp only [Program.world]
+    by_cases hk : k < p.framers.length
+    · simp only [List.getD_eq_getElem?_getD, List.getElem?_eq_getElem hk, Option.getD_some]
+      have := hwf.2 p.framers[k] (List.getElem_mem hk)
+      simpa using this.1.1.1.2
+    · have : p.framers[k]? = none := by simp; omega
+      simp [List.getD_eq_getElem?_getD, this]
+  have hstart : (fun s : St τ (World τ) => ∀ k, (s.world.framers k).actives = [])
+      (start LoopEnv p.period p.stamp p.houses p.world) := by
+    apply start_inv (I := fun s : St τ (World τ) => ∀ k, (s.world.framers k).actives = [])
+    · intro s i hi k
+      show ((setStatus i .stopped (setDesire i _ s.world)).framers k).actives = []
+      simp only [setStatus, setDesire, World.modF]
+      split
+      · rename_i h; subst h; simpa using hi k
+      · exact hi k
+    · exact hinit
+  have hidle : IdleEmpty (start LoopEnv p.period p.stamp p.houses p.world).world :=
+    fun k _ _ => hstart k
+  have hev : ∀ ev ∈ (start LoopEnv p.period p.stamp p.houses p.world).events,
+      ev.phase = .final → ∀ x, ev.result = .yielded x → x = .aborted := by
+    rw [(start_fields LoopEnv p.period p.stamp p.houses p.world).2.1]; simp
+  exact ⟨run_inv idleEmpty_step fuel _ hidle, run_inv sweepYield_step fuel _ hev⟩
+
+/-! ## non-vacuity: two framers with nested frames, an interrupt after pass 0, a crash in the sweep -/
+
+def demoLoop : Program Rat :=
+  { period := 1/8, stamp := 0, houses := [{ fronts := [], mids := [0, 1], backs := [] }],
+    framers := [
+      { active := true, period := 0, first := 1, frames := [
+          { enacts := [.record], exacts := [.record] },
+          { over := some 0, enacts := [.record, .step], exacts := [.record] }] },
+      { active := true, period := 0, frames := [{ enacts := [.record], exacts := [.record] }] }],
+    boundaryCrash := some (0, .keyboardInterrupt) }
+
+example : demoLoop.wellFormed = true := by decide +kernel
+
+/-- interrupt after pass 0: `run` returns; the sweep aborts both; framer 0 exits frame 1 then frame 0 -/
+example :
+    (demoLoop.run 50).1 = .returned .interrupted ∧
+    (demoLoop.run 50).2.world.trace.filterMap (fun o => match o with | .mark i f ctx => some (i, f, ctx) | _ => none) =
+      [(0, 0, .enter), (0, 1, .enter), (1, 0, .enter), (0, 1, .exit), (0, 0, .exit), (1, 0, .exit)] ∧
+    ((demoLoop.run 50).2.events.filter (·.phase = .final)).map (fun e => (e.id, e.control, e.result)) =
+      [(0, .abort, .yielded .aborted), (1, .abort, .yielded .aborted)] := by
+  decide +kernel
+
+/-- the same with the 5th action (framer 0's first exit action, in the sweep) raising: framer 1 is never aborted -/
+example :
+    let p := { demoLoop with crash := some (5, .exception "RuntimeError") }
+    (p.run 50).1 = .raised (.exception "RuntimeError") ∧
+    ((p.run 50).2.events.filter (·.phase = .final)).map (·.id) = [0] ∧
+    ((p.run 50).2.world.framers 1).actives = [0] := by
+  decide +kernel
+
+end Ioflo.SkedLoop
